@@ -2,21 +2,30 @@
 (spec/Backpressure.tla, spec/Trace_Backpressure.tla, driver stall)."""
 import glob, os, re
 import engine as E
+from props.fanout_common import behaviours
 
-PROTOS = ["rtmp", "flv", "wsflv", "ts", "wsts"]
+# (protocol, second stream under one ServerManager)
+VARIANTS = [("rtmp", False), ("rtmpmw", False), ("flv", False), ("wsflv", False), ("ts", False), ("wsts", False),
+            ("rtsp", False), ("wsrtsp", False), ("flv", True), ("rtmpmw", True), ("rtsp", True)]
+RTSP_HOOK = "pkg/rtsp/verif_hooks_wchan.go"   # VerifSetServerCommandSessionWriteChanSize
 BOUND_US = 100000   # delivery / call latency bound of the property: 100 ms
 # frame body lengths (0 = the driver's small / several-chunk pool); the big ones are several times any piece size
 # a session could cut a write into (16 KB, 32 KB, 64 KB)
 SIZES = [0, 0, 0, 40000, 70000, 40000, 150000]
+RTSP_SIZES = [0, 0, 0, 0, 3000, 9000]   # one RTP packet per 1.2 KB: a frame is a burst of units
 
 
 def write_cfg(name, spec, n, parts, ws, maxpub, maxread, maxstall, maxsweep, healthy, invs=None, prop=None,
-              view=None, emit=False, maxleave=0):
+              view=None, emit=False, maxleave=0, elemparts=1, enq=False, deadline=True, prime=False, other=False,
+              maxpubb=0):
+    tf = lambda b: "TRUE" if b else "FALSE"
     lines = ["SPECIFICATION " + spec, "CONSTANTS", '  Cons = {"s1", "s2"}',
              '  Healthy = {"h"}' if healthy else "  Healthy = {}",
-             "  N = %d" % n, "  HCap = 64", "  Parts = %d" % parts, "  WsMode = %s" % ("TRUE" if ws else "FALSE"),
+             '  Other = {"hb"}' if other else "  Other = {}",
+             "  N = %d" % n, "  HCap = 64", "  Parts = %d" % parts, "  ElemParts = %d" % elemparts,
+             "  WsMode = " + tf(ws), "  EnqAcct = " + tf(enq), "  HasDeadline = " + tf(deadline), "  Prime = " + tf(prime),
              "  MaxPub = %d" % maxpub, "  MaxRead = %d" % maxread, "  MaxStall = %d" % maxstall,
-             "  MaxSweep = %d" % maxsweep, "  MaxLeave = %d" % maxleave]
+             "  MaxSweep = %d" % maxsweep, "  MaxLeave = %d" % maxleave, "  MaxPubB = %d" % maxpubb]
     if invs:
         lines.append("INVARIANTS " + invs)
     if prop:
@@ -46,7 +55,11 @@ def why_map(ctx):
 
 
 def run(ctx):
-    E.build_harness(ctx)
+    rtsp_ok = os.path.exists(os.path.join(E.REPO, RTSP_HOOK))
+    E.build_harness(ctx, tags="verif,verif_c15rtsp" if rtsp_ok else "verif")
+    if not rtsp_ok:
+        ctx.log("no %s in %s: RTSP subscribers are not exercised" % (RTSP_HOOK, E.REPO))
+    variants = [v for v in VARIANTS if rtsp_ok or "rtsp" not in v[0]]
     q = ctx.quick
     # ---- design level: every interleaving of the fan-out loop with the writer goroutines (intended design:
     # a protocol unit is one queue element), safety for N = 1..3, liveness under fairness of the fan-out loop,
@@ -57,12 +70,24 @@ def run(ctx):
         res = E.tlc(ctx, "MC_Backpressure", cfg, timeout=1500, deadlock=False)
         E.require_design_ok(ctx, res, cfg)
         ctx.log("design N=%d: %d distinct states, WholeUnits / NoBlocking / QueueBound hold" % (n, res["distinct"]))
-    for (n, mp, mr, ms) in ([(1, 3, 2, 2)] if q else [(1, 4, 2, 2), (2, 4, 2, 2), (3, 3, 2, 1)]):
+    for (n, mp, mr, ms) in ([(1, 2, 2, 2)] if q else [(1, 4, 2, 2), (2, 4, 2, 2), (3, 3, 2, 1)]):
         cfg = write_cfg("MC_Backpressure_live_%d.cfg" % n, "FineFair", n, 1, False, mp, mr, ms, 0, False,
                         prop="EventuallyClosed")
         res = E.tlc(ctx, "MC_Backpressure", cfg, timeout=1500, deadlock=False)
         E.require_design_ok(ctx, res, cfg)
         ctx.log("liveness N=%d: %d distinct states, EventuallyClosed holds" % (n, res["distinct"]))
+    # elements of two parts (two messages merged into one Writev: read part by part, kept or dropped together)
+    cfg = write_cfg("MC_Backpressure_merge.cfg", "FineSpec", 2, 1, False, 3 if q else 4, 3, 2, 2, False,
+                    invs="WholeUnits NoBlocking QueueBound", view="FineView", elemparts=2)
+    res = E.tlc(ctx, "MC_Backpressure", cfg, timeout=1500, deadlock=False)
+    E.require_design_ok(ctx, res, cfg)
+    ctx.log("design, merged writes: %d distinct states, WholeUnits / NoBlocking / QueueBound hold" % res["distinct"])
+    # RTSP interleaved: no write deadline, liveness accounted at enqueue: the sweep alone must cut a stalled consumer
+    cfg = write_cfg("MC_Backpressure_live_rtsp.cfg", "FineFair", 1 if q else 2, 1, False, 2 if q else 3, 2, 2, 0, False,
+                    prop="EventuallyClosed", enq=True, deadline=False)
+    res = E.tlc(ctx, "MC_Backpressure", cfg, timeout=1500, deadlock=False)
+    E.require_design_ok(ctx, res, cfg)
+    ctx.log("liveness without write deadline, accounting at enqueue: %d distinct states, EventuallyClosed holds" % res["distinct"])
     # the same model with a unit enqueued as two elements must show the cut unit (sanity of the invariant)
     cfg = write_cfg("MC_Backpressure_split.cfg", "FineSpec", 2, 2, True, 3, 2, 1, 1, False, invs="WholeUnits",
                     view="FineView")
@@ -71,40 +96,67 @@ def run(ctx):
         raise E.Infra("the two-element model does not violate WholeUnits: the invariant is vacuous")
     ctx.log("negative model (header and payload as two elements): TLC finds the cut unit")
 
-    # ---- schedules: edge cover of the call-level model per queue size, every path run for every protocol
+    # ---- schedules: edge cover of the call-level model per queue size (a second stream included), every path run
+    # for every protocol variant
     scen = []
     kinds = ["key", "inter", "inter", "aud", "meta"]
     for n in (1, 2, 3):
-        cfg = write_cfg("MC_Backpressure_gen_%d.cfg" % n, "GSpec", n, 1, False, 4 if q else 6, 3 if q else 4, 2,
-                        2 if q else 3, True, invs="Quiescent QueueBound WholeUnits", view="GView", emit=True, maxleave=1)
-        res = E.tlc(ctx, "MC_Backpressure", cfg, timeout=1500, deadlock=False)
-        E.require_design_ok(ctx, res, cfg)
-        g = E.Graph.load(res)
-        paths, ncov = g.edge_cover(ctx.rng, max_len=22, max_paths=90 if q else 1400)
-        ctx.log("schedules N=%d: %d abstract states, %d edges, %d paths (%d edges covered)" %
-                (n, res["distinct"], g.nedges, len(paths), ncov))
+        cfg = write_cfg("MC_Backpressure_gen_%d.cfg" % n, "GSpec", n, 1, False, 6, 4, 2,
+                        3, True, invs="Quiescent QueueBound WholeUnits", view="GView", emit=not q, maxleave=1,
+                        prime=True, other=True, maxpubb=2 if q else 1)
+        if q:
+            # quick: TLC-simulated behaviours of the same model (the exhaustive run with its edge cover is thorough);
+            # half of them with a single sweep, so that the consumers live long enough to be read slowly
+            paths = []
+            with open(os.path.join(E.SPEC, cfg)) as f:
+                base = f.read().replace("VIEW GView\n", "") + "ACTION_CONSTRAINT EmitA\n"
+            for (tag, sweeps, num) in (("a", 1, 25), ("b", 3, 20)):
+                simcfg = cfg.replace("gen_", "sim%s_" % tag)
+                with open(os.path.join(E.SPEC, simcfg), "w") as f:
+                    f.write(base.replace("MaxSweep = 3", "MaxSweep = %d" % sweeps))
+                res = E.tlc(ctx, "MC_Backpressure", simcfg, name="sim%s-%d" % (tag, n), workers=1, timeout=300,
+                            deadlock=False, simulate="num=%d" % num, depth=22)
+                if res["errors"]:
+                    raise E.Infra("simulation found a model error: %s" % res["errors"][:2])
+                paths += behaviours(res)
+            ctx.log("schedules N=%d: %d simulated behaviours" % (n, len(paths)))
+        else:
+            res = E.tlc(ctx, "MC_Backpressure", cfg, timeout=1500, deadlock=False)
+            E.require_design_ok(ctx, res, cfg)
+            g = E.Graph.load(res)
+            paths, ncov = g.edge_cover(ctx.rng, max_len=22, max_paths=500)
+            ctx.log("schedules N=%d: %d abstract states, %d edges, %d paths (%d edges covered)" %
+                    (n, res["distinct"], g.nedges, len(paths), ncov))
         for p in paths:
-            for proto in PROTOS:
+            for (proto, two) in variants:
+                sizes = RTSP_SIZES if "rtsp" in proto else SIZES
                 # the publisher sends its sequence headers, the consumers join, and the first frame (which hands a
                 # fresh consumer the cached headers as well) is published while all of them read
                 steps = [{"name": "PubArrive"}, {"name": "Publish", "t": "vsh"}, {"name": "Publish", "t": "ash"},
                          {"name": "Join"}, {"name": "Publish", "t": "key"}]
-                first = False
+                first, firstb = False, True
                 for a in p:
+                    if a["name"] == "PublishB" and not two:
+                        continue
                     st = {"name": a["name"]}
                     if "c" in a:
                         st["c"] = a["c"]
                     if a["name"] == "Publish":
                         st["t"] = "key" if first else kinds[ctx.rng.randrange(len(kinds))]
                         if st["t"] in ("key", "inter", "aud"):
-                            st["n"] = SIZES[ctx.rng.randrange(len(SIZES))]
+                            st["n"] = sizes[ctx.rng.randrange(len(sizes))]
                         first = False
+                    if a["name"] == "PublishB":
+                        st["t"] = "key" if firstb else "inter"
+                        firstb = False
                     steps.append(st)
                     if a["name"] == "PubArrive":      # a returning publisher starts with its headers and a key frame
                         steps += [{"name": "Publish", "t": "vsh"}, {"name": "Publish", "t": "ash"}]
                         first = True
-                scen.append({"sc": len(scen), "cfgId": "%s-%d" % (proto, n),
-                             "cfg": {"proto": proto, "n": n, "boundUs": BOUND_US}, "steps": steps})
+                    if two and ctx.rng.randrange(4) == 0:   # a look at all groups under the ServerManager lock
+                        steps.append({"name": "Stat"})
+                scen.append({"sc": len(scen), "cfgId": "%s%s-%d" % (proto, "+B" if two else "", n),
+                             "cfg": {"proto": proto, "two": two, "n": n, "boundUs": BOUND_US}, "steps": steps})
     sp, tp = ctx.path("scen.ndjson"), ctx.path("trace.ndjson")
     E.write_ndjson(sp, scen)
     E.run_driver(ctx, "stall", sp, tp, timeout=3000)
@@ -112,13 +164,16 @@ def run(ctx):
     rej = E.validate(ctx, "Trace_Backpressure", "Trace_Backpressure.cfg", rows, name="val-bp")
     why, skipped = why_map(ctx)
     ctx.log("validated %d events of %d scenarios; %d scenarios cut short (burst larger than the queue met an idle "
-            "writer of a stalled consumer, or the healthy consumer was swept)" % (len(rows), len(scen), len(skipped)))
+            "writer of a stalled consumer that was left unprimed, or the healthy consumer was swept while others "
+            "were still connected)" % (len(rows), len(scen), len(skipped)))
     ctx.cov["traces_validated_against_impl"] = len(scen)
     ctx.cov["evaluations"] = len(rows)
     ctx.cov["distinct_nontrivial"] = len(scen) - len(skipped)
     ctx.cov["cut_short"] = len(skipped)
     ctx.cov["rule"] = ("scenario = init-rooted path of the call-level Backpressure graph (edge cover, N in 1..3) x protocol "
-                       "(RTMP, HTTP-FLV, WS-FLV, HTTP-TS, WS-TS), replayed into a real logic.Group with a real publisher, "
+                       "(RTMP plain and behind the merge writer, HTTP-FLV, WS-FLV, HTTP-TS, WS-TS, RTSP interleaved plain and over "
+                       "WebSocket; for three of them also with a second stream under one ServerManager), replayed into a real "
+                       "logic.Group with a real publisher, "
                        "two sub sessions with queue size N on gated connections and one healthy sub session; "
                        "every event is an observation at goroutine quiescence")
     if scen:
@@ -128,7 +183,7 @@ def run(ctx):
         sid = r["sc"]
         proto = scen[sid]["cfg"]["proto"] if sid is not None and sid < len(scen) else "?"
         w = why.get((sid, r["line"]), "Rejected")
-        fam = "ws" if proto.startswith("ws") else proto
+        fam = "wsrtsp" if proto == "wsrtsp" else "ws" if proto.startswith("ws") else proto
         sig = "%s:%s:%s" % (w, fam, r["event"].get("ev"))
         E.report(ctx, sig, "trace rejected (%s) at %s, scenario %s (%s) line %d: %s" %
                  (w, r["event"].get("ev"), sid, scen[sid]["cfgId"] if sid is not None and sid < len(scen) else "?",
@@ -140,7 +195,12 @@ def run(ctx):
         "read it; its write deadline runs on a virtual clock (the driver decides when it has passed)",
         "goroutine quiescence is read from runtime.Stack: every connection.runWriteLoop goroutine parked in its select "
         "or inside the gate",
-        "RTMP sub sessions are put into the state after play by the verif hook VerifStartPlay (no handshake)",
+        "RTMP sub sessions are put into the state after play by the verif hook VerifStartPlay (no handshake); RTSP "
+        "sub sessions are put into the state after DESCRIBE / SETUP (interleaved) / PLAY through the exported session "
+        "methods, their command connection sized by VerifSetServerCommandSessionWriteChanSize",
+        "before most calls the writer of a stalled idle consumer is kept busy with a null unit written through the "
+        "session's own write path, which makes the burst of the call deterministic (slow-writer branch of the race)",
+        "queue elements are told apart at the socket by the SetWriteDeadline call naza makes once per element",
         "steps whose outcome is hidden by a goroutine race (burst larger than the queue meets an idle writer of a "
         "stalled consumer) are covered by the exhaustive model only, not replayed",
         "latency is wall-clock time on this machine; a scenario whose latency exceeds the bound is re-run up to 3 times",
